@@ -18,11 +18,13 @@
      same names, nesting, order, disabled marks, merge flags, word texts and quote styles (and empty attribute
      lists); printing the re-parsed tree gives byte-identical text (C01_tree_level0, C01_text_fixpoint_level0);
    - attributes level 3 for trees whose attributes are the bool / int ones (C01_tree_level3_partial).
+   - EVERY PARSED DOCUMENT without deprecated definitions and include lines lies in dtree_ok, hence for every
+     such text: parse, print at level 0 (any width), parse again gives the same tree (C01_parsed_trees_in_domain,
+     C01_parse_print_parse_level0) - the property's own quantifier "for every PHIL text that parses".
    Decided by correspondence + oracle only (every run): string-valued attributes (wrapped help text), .type,
-   .call, levels 1/2 views, deprecated definitions, dotted names at level 3, and that every parsed tree lies in
-   dtree_ok (evaluated per tree, see the stream). *)
+   .call, levels 1/2 views, deprecated definitions, dotted names at level 3. *)
 From Coq Require Import List Ascii String ZArith.
-From Phil Require Import Base Tokenizer Tree Parser Show QuoteProofs WordsRoundtrip ShowErase TreeRoundtrip.
+From Phil Require Import Base Tokenizer Tree Parser Show QuoteProofs WordsRoundtrip ShowErase TreeRoundtrip ParserShape.
 Import ListNotations.
 
 Theorem C01_quoted_word_roundtrip : forall q s rest line,
@@ -92,3 +94,19 @@ Print Assumptions C01_tree_level3_partial.
 Theorem C01_domain_contains_plain_trees : forall o, tree_ok o = true -> dtree_ok [] o = true.
 Proof. exact tree_ok_dtree_ok. Qed.
 Print Assumptions C01_domain_contains_plain_trees.
+
+Theorem C01_parsed_trees_in_domain : forall o s l,
+  parse o s = Ok l -> no_deprecated_or_include l = true -> forallb (dtree_ok []) l = true.
+Proof. exact parse_lands_in_dtree_ok. Qed.
+Print Assumptions C01_parsed_trees_in_domain.
+
+Theorem C01_parse_print_parse_level0 : forall o o' s l w,
+  parse o s = Ok l -> no_deprecated_or_include l = true ->
+  exists text l', as_str l [] None 0 w = Ok text /\ parse o' text = Ok l'
+                  /\ map erase_obj l' = map erase_all l.
+Proof. exact parse_print_parse_level0. Qed.
+Print Assumptions C01_parse_print_parse_level0.
+
+Theorem C01_parsed_value_words_in_domain : forall o s l, parse o s = Ok l -> forallb defs_words_ok l = true.
+Proof. exact parse_words_ok. Qed.
+Print Assumptions C01_parsed_value_words_in_domain.
